@@ -228,7 +228,7 @@ func init() {
 // no trace at all: never a part of a transaction.
 func init() {
 	type closeState struct {
-		results map[string]error // commit name -> Commit result
+		results  map[string]error // commit name -> Commit result
 		closeErr error
 	}
 	registerSched(&schedScenario{
